@@ -171,7 +171,7 @@ pub fn run(ctx: &mut Ctx) {
     ctx.rule = "key from the C04 scalar strategy x digest from {0,1,n-1,n,n+1,2^256-1,2^255,uniform >= n,uniform}. Oracle: range checks, independent ECDSA verification and public-key recovery, sign == try_sign == second call, and for digests < n equality with an RFC 6979 reference (HMAC-SHA256 DRBG written from the RFC, low-s normalisation with parity flip). Non-trivial: not the pinned unit-test key; distinct by (key, digest).".into();
     ctx.assumptions = vec!["for digests >= n RFC 6979 equality is not claimed (the property restricts it to digests < n)".into()];
     ctx.replay_known_and_regressions(&replay);
-    let n = ctx.tier.pick(40_000, 500_000);
+    let n = ctx.tier.pick(60_000, 600_000);
     ctx.run_prop(
         "sign",
         n,
